@@ -714,10 +714,11 @@ trait DynApp {
     fn code_checksum(&self, code_id: u64) -> Option<Vec<u8>>;
 }
 
-impl<B, C, S, D, I, G, T> DynApp for App<B, MockApi, MockStorage, C, WasmKeeper<CMsg, CQuery>, S, D, I, G, T>
+impl<B, C, W, S, D, I, G, T> DynApp for App<B, MockApi, MockStorage, C, W, S, D, I, G, T>
 where
     B: Bank,
     C: Module<ExecT = CMsg, QueryT = CQuery>,
+    W: cw_multi_test::Wasm<CMsg, CQuery>,
     S: Staking,
     D: Distribution,
     I: Ibc,
@@ -761,6 +762,74 @@ where
     }
 }
 
+thread_local! {
+    /// senders of the wasm messages handed to the configured wasm module (`wasmrec:N`), in order
+    static WLOG: RefCell<Vec<String>> = RefCell::new(vec![]);
+}
+
+/// A wasm module of the test author's own: notes who sent each message it is handed, then lets the wrapped keeper do the work.
+/// Every wasm message — from a user or emitted by a contract — has to come through here, since this is the module the
+/// application was built with.
+struct RecWasm {
+    inner: WasmKeeper<CMsg, CQuery>,
+}
+
+impl cw_multi_test::Wasm<CMsg, CQuery> for RecWasm {
+    fn execute(
+        &self,
+        api: &dyn cosmwasm_std::Api,
+        storage: &mut dyn cosmwasm_std::Storage,
+        router: &dyn cw_multi_test::CosmosRouter<ExecC = CMsg, QueryC = CQuery>,
+        block: &BlockInfo,
+        sender: Addr,
+        msg: WasmMsg,
+    ) -> AnyResult<AppResponse> {
+        let kind = match &msg {
+            WasmMsg::Execute { .. } => "x",
+            WasmMsg::Instantiate { .. } => "i",
+            WasmMsg::Migrate { .. } => "m",
+            _ => "o",
+        };
+        WLOG.with(|w| w.borrow_mut().push(format!("{}/{}", kind, sender)));
+        self.inner.execute(api, storage, router, block, sender, msg)
+    }
+    fn query(
+        &self,
+        api: &dyn cosmwasm_std::Api,
+        storage: &dyn cosmwasm_std::Storage,
+        querier: &dyn cosmwasm_std::Querier,
+        block: &BlockInfo,
+        request: WasmQuery,
+    ) -> AnyResult<Binary> {
+        self.inner.query(api, storage, querier, block, request)
+    }
+    fn sudo(
+        &self,
+        api: &dyn cosmwasm_std::Api,
+        storage: &mut dyn cosmwasm_std::Storage,
+        router: &dyn cw_multi_test::CosmosRouter<ExecC = CMsg, QueryC = CQuery>,
+        block: &BlockInfo,
+        msg: WasmSudo,
+    ) -> AnyResult<AppResponse> {
+        self.inner.sudo(api, storage, router, block, msg)
+    }
+    fn store_code(&mut self, creator: Addr, code: Box<dyn Contract<CMsg, CQuery>>) -> u64 {
+        self.inner.store_code(creator, code)
+    }
+    fn store_code_with_id(&mut self, creator: Addr, code_id: u64, code: Box<dyn Contract<CMsg, CQuery>>) -> AnyResult<u64> {
+        self.inner.store_code_with_id(creator, code_id, code)
+    }
+    fn duplicate_code(&mut self, code_id: u64) -> AnyResult<u64> {
+        self.inner.duplicate_code(code_id)
+    }
+    fn contract_data(&self, storage: &dyn cosmwasm_std::Storage, address: &Addr) -> AnyResult<cw_multi_test::ContractData> {
+        self.inner.contract_data(storage, address)
+    }
+    fn dump_wasm_raw(&self, storage: &dyn cosmwasm_std::Storage, address: &Addr) -> Vec<cosmwasm_std::Record> {
+        self.inner.dump_wasm_raw(storage, address)
+    }
+}
+
 #[derive(Clone, Debug)]
 enum Step {
     Module(&'static str, Mode, u32),
@@ -768,6 +837,8 @@ enum Step {
     Storage(u8),
     Block(u64),
     Wasm(u8),
+    /// the same keeper as `wasm:N`, wrapped in a module of the test author's own that notes every message it is handed
+    WasmRec(u8),
 }
 
 fn parse_step(tok: &str) -> Option<Step> {
@@ -778,6 +849,7 @@ fn parse_step(tok: &str) -> Option<Step> {
         ["storage", n] => num(n).map(|n| Step::Storage(n as u8)),
         ["block", n] => num(n).map(|n| Step::Block(n as u64)),
         ["wasm", n] => num(n).map(|n| Step::Wasm(n as u8)),
+        ["wasmrec", n] => num(n).map(|n| Step::WasmRec(n as u8)),
         [slot, mode] | [slot, mode, _] => {
             let slot = ["bank", "custom", "staking", "distribution", "ibc", "gov", "stargate"].iter().find(|s| *s == slot)?;
             let mode = match *mode {
@@ -796,10 +868,11 @@ fn parse_step(tok: &str) -> Option<Step> {
 /// Applies the steps, in order, each as exactly one `with_*` call on the real builder, then `build`.
 /// The builder's type changes with the first step for a module slot; the recursion instantiates the
 /// 2^7 reachable type combinations.
-fn apply<B, C, S, D, I, G, T>(b: AppBuilder<B, MockApi, MockStorage, C, WasmKeeper<CMsg, CQuery>, S, D, I, G, T>, steps: &[Step]) -> Box<dyn DynApp>
+fn apply<B, C, W, S, D, I, G, T>(b: AppBuilder<B, MockApi, MockStorage, C, W, S, D, I, G, T>, steps: &[Step]) -> Box<dyn DynApp>
 where
     B: Bank + 'static,
     C: Module<ExecT = CMsg, QueryT = CQuery> + 'static,
+    W: cw_multi_test::Wasm<CMsg, CQuery> + 'static,
     S: Staking + 'static,
     D: Distribution + 'static,
     I: Ibc + 'static,
@@ -835,6 +908,10 @@ where
             b.with_wasm(WasmKeeper::<CMsg, CQuery>::new().with_checksum_generator(TagChk(n)).with_address_generator(TagGen(n))),
             rest,
         ),
+        Step::WasmRec(n) => apply(
+            b.with_wasm(RecWasm { inner: WasmKeeper::<CMsg, CQuery>::new().with_address_generator(TagGen(n)).with_checksum_generator(TagChk(n)) }),
+            rest,
+        ),
     }
 }
 
@@ -858,6 +935,7 @@ fn build(steps: &[Step]) -> Built {
     let native = app.instantiate(c1, "native").map(|a| a.to_string()).unwrap_or_else(|_| "?".into());
     let lifted = app.instantiate(c2, "lifted").map(|a| a.to_string()).unwrap_or_else(|_| "?".into());
     LOG.with(|l| l.borrow_mut().clear());
+    WLOG.with(|w| w.borrow_mut().clear());
     FRESH.with(|f| f.borrow_mut().clear());
     Built { app, native, lifted, code_native: c1, code_lifted: c2 }
 }
@@ -903,7 +981,7 @@ fn run_op(st: &mut Option<Built>, t: &[&str]) -> String {
     if t[0] == "wrapper" {
         return wrapper_op(&t[1..]);
     }
-    let known = ["send-top", "send-sub", "send-sub-from", "send-sub-reply", "query", "query-sub", "sudo", "records", "block", "storage-dump", "init-count", "api-prefix", "wasm-gen"];
+    let known = ["send-top", "send-sub", "send-sub-from", "send-sub-reply", "query", "query-sub", "sudo", "records", "block", "storage-dump", "init-count", "api-prefix", "wasm-gen", "wasm-calls"];
     if !known.contains(&t[0]) {
         return "bad-op".into();
     }
@@ -1023,6 +1101,22 @@ fn run_op(st: &mut Option<Built>, t: &[&str]) -> String {
             fmt_records(&recs)
         }
         "init-count" => INIT_COUNT.with(|c| c.get()).to_string(),
+        // implementation-only line (the model answers `!`): what the configured wasm module noted since the last time
+        "wasm-calls" => {
+            let w: Vec<String> = WLOG.with(|w| w.borrow_mut().drain(..).collect());
+            let sym = |s: &str| {
+                if s == b.native {
+                    "cn".to_string()
+                } else if s == b.lifted {
+                    "cl".to_string()
+                } else if !s.is_empty() && FRESH.with(|f| *f.borrow() == s) {
+                    "cx".to_string()
+                } else {
+                    penc(s)
+                }
+            };
+            format!("!w[{}]", w.iter().map(|e| { let (k, s) = e.split_once('/').unwrap_or(("?", "")); format!("{}/{}", k, sym(s)) }).collect::<Vec<_>>().join(","))
+        }
         "api-prefix" => b.app.prefix(),
         "wasm-gen" => {
             let a = match b.app.canon(&b.native) {
@@ -1153,6 +1247,7 @@ fn observe_wrapper(w: &W) -> String {
 
 pub fn exec_route(lines: &[String]) -> Vec<String> {
     LOG.with(|l| l.borrow_mut().clear());
+    WLOG.with(|w| w.borrow_mut().clear());
     INIT_COUNT.with(|c| c.set(0));
     let mut st: Option<Built> = None;
     let mut out = vec![];
@@ -1187,7 +1282,7 @@ fn other_step(rng: &mut Rng) -> String {
         0 => format!("api:{}", rng.range(0, 2)),
         1 => format!("storage:{}", rng.range(1, 3)),
         2 => format!("block:{}", rng.range(1, 9)),
-        _ => format!("wasm:{}", rng.range(1, 3)),
+        _ => format!("{}:{}", if rng.chance(1, 2) { "wasmrec" } else { "wasm" }, rng.range(1, 3)),
     }
 }
 
@@ -1283,6 +1378,19 @@ fn order_preserving_shuffle(rng: &mut Rng, steps: &[String]) -> Vec<String> {
 }
 
 pub fn gen_route(rng: &mut Rng, thorough: bool) -> Vec<String> {
+    // after every `records`: what the configured wasm module was handed meanwhile (implementation-only line)
+    let mut out = vec![];
+    for l in gen_route0(rng, thorough) {
+        let is_records = l == "records";
+        out.push(l);
+        if is_records {
+            out.push("wasm-calls".into());
+        }
+    }
+    out
+}
+
+fn gen_route0(rng: &mut Rng, thorough: bool) -> Vec<String> {
     let mut out = vec![];
     let family = rng.below(20);
     if family < 9 {
